@@ -340,6 +340,24 @@ def run_interleave(unit, res):
                     ws.append(w)
         words_by_n[n] = ws
     seen_v = set()
+    full_probe = unit["length"] <= 3
+    probe_cache = {}
+
+    def probes(ts):
+        """Configs whose append makes the schedule invalid: all of them (length <= 3), else the first
+        of every class (violated clauses, type) - the decision may depend on the manager's pointer, the
+        reasons only on the list."""
+        if ts not in probe_cache:
+            probe_cache.clear()
+            bad = [a for a in alpha if not ref.valid(ts + (a,))]
+            if not full_probe:
+                first = {}
+                for a in bad:
+                    first.setdefault((ref.reasons(ts + (a,)), a[0]), a)
+                bad = list(first.values())
+            probe_cache[ts] = bad
+        return probe_cache[ts]
+
     for ts in scheds:
         res.states += 1
         for w in words_by_n[len(ts)]:
@@ -390,9 +408,7 @@ def run_interleave(unit, res):
             if ok:
                 # every config that would make the schedule invalid must still be refused here, whatever
                 # has been handed out so far (a rejected append leaves the manager as it was: drained below)
-                for a in alpha:
-                    if ref.valid(ts + (a,)):
-                        continue
+                for a in probes(ts):
                     res.transitions += 1
                     try:
                         m.append(obj[a])
